@@ -148,6 +148,22 @@ func runC11(p *an.Prog, r *an.Run, tier string) {
 			if !sameID {
 				bad = append(bad, "the record whose LastSeen is stored at "+p.Pos(u.Pos())+" is not the record of the peer being tracked (the updating node's own LastSeen would keep every peer alive)")
 			}
+			// the reported id reaches the lookup verbatim: registration (connect -> SetNode) stores ids as given, so any
+			// normalisation on this side only makes registered nodes invisible
+			for _, n := range p.Derives(2, src.Key, u.Key).Nodes {
+				c, ok := n.(*ssa.Call)
+				if !ok {
+					continue
+				}
+				f := an.CallObj(c)
+				if f == nil || f.Pkg() == nil || strings.HasPrefix(f.Pkg().Path(), an.Module) || an.IsFunc(f, "fmt", "Sprintf") || an.IsFunc(f, "fmt", "Sprint") || an.IsFunc(f, "time", "Now") {
+					continue
+				}
+				if sig, ok := f.Type().(*types.Signature); ok && sig.Recv() != nil && !isStringy(sig.Results()) {
+					continue
+				}
+				bad = append(bad, "the reported peer id is transformed by "+f.FullName()+" before the registered-node lookup at "+p.Pos(u.Pos())+" (registration stores ids verbatim: a node registered under another spelling is never tracked)")
+			}
 			// found-edge
 			if kind == "memory" {
 				lk, _ := src.In.(*ssa.Lookup)
@@ -322,7 +338,9 @@ func runC11(p *an.Prog, r *an.Run, tier string) {
 			bad = append(bad, "UpdateNodePeers does not run in one critical region")
 		} else {
 			nodeW := filterOps(ops, func(o storeOp) bool { return o.Kind == opWrite && o.inSpace("node") })
-			peersW := filterOps(ops, func(o storeOp) bool { return o.Kind == opWrite && o.inSpace("peers") && o.Fn == region && o.Via != "mapupdate peers" })
+			peersW := filterOps(ops, func(o storeOp) bool {
+				return o.Kind == opWrite && o.inSpace("peers") && o.Fn == region && o.Via != "mapupdate peers"
+			})
 			n, _ := enumPaths(region, 4096, func(path []*ssa.BasicBlock, ret *ssa.Return) {
 				cls, _ := returnClass(ret)
 				if cls == "nonnil" {
@@ -419,6 +437,22 @@ func derivesFromLookup(d *an.Deriv, lk ssa.Value) bool {
 	for _, n := range d.Nodes {
 		if ex, ok := n.(*ssa.Extract); ok && ex.Tuple == lk {
 			return true
+		}
+	}
+	return false
+}
+
+func isStringy(t *types.Tuple) bool {
+	for i := 0; i < t.Len(); i++ {
+		switch u := t.At(i).Type().Underlying().(type) {
+		case *types.Basic:
+			if u.Info()&types.IsString != 0 {
+				return true
+			}
+		case *types.Slice:
+			if b, ok := u.Elem().Underlying().(*types.Basic); ok && b.Kind() == types.Byte {
+				return true
+			}
 		}
 	}
 	return false
